@@ -1,3 +1,100 @@
-(* placeholder, replaced by the real theorems *)
-Theorem placeholder_C15 : True. Proof. exact I. Qed.
-Print Assumptions placeholder_C15.
+(* C15 — Author-code failures during a choice are contained or surface cleanly, undoably.
+   Property theorems only (proofs: Proofs/EngineFault.v, EngineReach.v, EngineUndo.v, EngineNav.v).
+   Author code is the oracle record `orc`; "fails at an evaluation point" = the oracle returns Exc there.  All
+   theorems are for EVERY oracle, so for a fault injected at every evaluation point of every story and history. *)
+From Coq Require Import String Ascii List Bool ZArith Arith.
+From Bardic Require Import PyStr Value Compiled Engine EngineBase EngineNav EngineParams EngineSem EngineJump
+     EngineUndo EngineHooks EngineFault EngineReach PyMini EngineCheck.
+Import ListNotations.
+
+(* a display expression that fails becomes the inline {ERROR...} marker, and rendering it never raises *)
+Theorem display_fault_is_marker : forall orc ctx code e,
+  o_eval orc ctx (expr_part code) = Exc e -> render_expr orc ctx code = ERR.
+Proof. exact display_fault_is_marker_lemma. Qed.
+Print Assumptions display_fault_is_marker.
+
+Theorem display_expression_never_raises : forall orc ctxkeys code s,
+  render_tok orc ctxkeys (TExpr code) s =
+  (s, Ok (render_expr orc (eval_context (vars (nc s)) (scopes s)) code, CNext, [])).
+Proof. exact display_never_raises. Qed.
+Print Assumptions display_expression_never_raises.
+
+Theorem inline_condition_fault_is_marker : forall orc ctxkeys cond tr fa s e,
+  o_eval orc (eval_context (vars (nc s)) (scopes s)) cond = Exc e ->
+  render_tok orc ctxkeys (TInlineCond cond tr fa) s = (s, Ok (ERR, CNext, [])).
+Proof. exact inline_cond_fault_is_marker. Qed.
+Print Assumptions inline_condition_fault_is_marker.
+
+(* a failing choice condition hides that choice (and changes nothing) *)
+Theorem condition_fault_hides : forall orc ctxkeys c dt s cond e,
+  ch_sticky c = true -> ch_cond c = Some cond -> String.eqb cond "" = false ->
+  o_eval orc (eval_context (vars (nc s)) (scopes s)) cond = Exc e ->
+  is_choice_available orc ctxkeys c dt s = (s, Ok false).
+Proof. exact condition_fault_hides_lemma. Qed.
+Print Assumptions condition_fault_hides.
+
+(* a failing branch condition skips that branch and only that branch *)
+Theorem branch_condition_fault_skips_only_that_branch : forall orc f ctx cond cont chs rest e,
+  o_eval orc ctx cond = Exc e ->
+  render_branches orc f ctx (Branch cond cont chs :: rest) = render_branches orc f ctx rest.
+Proof. exact branch_fault_skips_lemma. Qed.
+Print Assumptions branch_condition_fault_skips_only_that_branch.
+
+(* a failing statement or Python block is never silently discarded: it raises RuntimeError where it stands
+   (no variable is changed by it), and the exception propagates out of the token list it stands in *)
+Theorem stmt_fault_raises : forall orc ctxkeys code s e,
+  o_exec orc (eval_context (vars (nc s)) (scopes s)) code = Exc e ->
+  exec_statement orc ctxkeys code s = (mkNS (nc s) (scopes s) (log s ++ [EvStmt code]), Exc RuntimeError).
+Proof. exact stmt_fault_raises_lemma. Qed.
+Print Assumptions stmt_fault_raises.
+Theorem block_fault_raises : forall orc ctxkeys code s e,
+  o_exec orc (eval_context (vars (nc s)) (scopes s)) code = Exc e ->
+  exec_block orc ctxkeys code s = (mkNS (nc s) (scopes s) (log s ++ [EvBlock code]), Exc RuntimeError).
+Proof. exact block_fault_raises_lemma. Qed.
+Print Assumptions block_fault_raises.
+Theorem fault_propagates : forall (f : token -> M tok_out) t r s s' e,
+  f t s = (s', Exc e) -> seqr f (t :: r) s = (s', Exc e).
+Proof. exact seqr_propagates. Qed.
+Print Assumptions fault_propagates.
+
+(* whatever fails, and wherever (a statement, block, argument, default, condition or display expression of any
+   passage or hook involved), the only exceptions choose() can raise in a reachable state are IndexError (for a
+   rejected index) and RuntimeError or ValueError *)
+Theorem choose_raises_only_runtime_or_value_error : forall orc ctxkeys st e i e' x,
+  reach orc ctxkeys st e ->
+  choose orc ctxkeys st e i = (e', Exc x) -> x = IndexError \/ x = RuntimeError \/ x = ValueError.
+Proof.
+  intros orc ctxkeys st e i e' x Hr H.
+  destruct (CInv_reach orc ctxkeys st e Hr) as [Hc _].
+  exact (choose_exn orc ctxkeys st e i e' x Hc H).
+Qed.
+Print Assumptions choose_raises_only_runtime_or_value_error.
+
+(* after such an error no parameter scope is left behind ... *)
+Theorem no_scope_leak_after_fault : forall orc ctxkeys st e i,
+  escopes (fst (choose orc ctxkeys st e i)) = escopes e.
+Proof. exact choose_scopes. Qed.
+Print Assumptions no_scope_leak_after_fault.
+
+(* ... and a single undo() restores exactly the pre-choice situation, whether the choice failed or not *)
+Theorem undo_after_fault : forall orc ctxkeys st e i,
+  valid_index e i ->
+  let e1 := fst (choose orc ctxkeys st e i) in
+  snd (undo e1) = true /\ ec (fst (undo e1)) = ec e /\ escopes (fst (undo e1)) = escopes e /\
+  undo_stack (fst (undo e1)) = firstn 49 (undo_stack e) /\ redo_stack (fst (undo e1)) = [ec e1].
+Proof. exact undo_choose_lemma. Qed.
+Print Assumptions undo_after_fault.
+
+(* non-vacuity: a story whose target passage has a failing statement; the oracle fails on the text "boom" *)
+Definition boom_story : story :=
+  mkStory "A" [("A"%string, mkPassage "A" [] [TText "a"]
+                  [Choice [TText "go"] "B" "" None true 0 [] []] [] [] []);
+               ("B"%string, mkPassage "B" [] [TText "b"] [] [TPyStmt "boom"] [] [])] [] [].
+Definition boom_orc : pyorc :=
+  mkOrc (fun _ _ => Ok VNone) (fun c code => if String.eqb code "boom" then Exc ZeroDivisionError else Ok c)
+        (fun _ _ => Ok ""%string) (fun _ _ => Ok ([], [])).
+Example boom_example :
+  let e0 := fst (init boom_orc [] boom_story []) in
+  let r := choose boom_orc [] boom_story e0 0 in
+  snd r = Exc RuntimeError /\ ec (fst (undo (fst r))) = ec e0.
+Proof. vm_compute. split; reflexivity. Qed.
